@@ -5,7 +5,7 @@ from metapype.eml import export
 from metapype.model import metapype_io
 from metapype.model.node import Node
 from harness import xmlscan
-from harness.hlib import nodes, part, bound
+from harness.hlib import fresh, nodes, part, bound
 
 FLD = part(0)            # which field is symbolic (see _tree)
 MAXLEN = bound(2)
@@ -29,7 +29,7 @@ def xml_chars(s: str, attr: bool) -> bool:
 def _small(val: Optional[str]):
     """Minimal tree around the symbolic field (the node-level rendering code is the same at every node; the big tree
     of _tree() is rendered and scanned in full with a concrete sentinel at import time)."""
-    Node.store.clear()
+    fresh()
     shared = {"p": "urn:u"}
     r = Node("r", id="n0")
     r.prefix = "p"
@@ -82,7 +82,7 @@ def _small(val: Optional[str]):
 
 
 def _tree(val: Optional[str]):
-    Node.store.clear()
+    fresh()
     shared = {"p": "urn:u"}
     r = Node("r", id="n0")
     r.prefix = "p"
@@ -109,7 +109,13 @@ def _tree(val: Optional[str]):
     h = Node("h", id="n6", content="H")
     h.nsmap = other
     h.prefix = "p"
-    for p, c in ((r, c1), (r, c2), (c2, g), (r, c3), (c3, h), (r, e)):
+    c4 = Node("c4", id="n7")        # a second, disjoint subtree that binds the same extra prefix q again
+    c4.nsmap = {"p": "urn:u", "q": "urn:q"}
+    c4.prefix = "q"
+    k = Node("k", id="n8", content="K")
+    k.nsmap = c4.nsmap
+    k.prefix = "q"
+    for p, c in ((r, c1), (r, c2), (c2, g), (r, c3), (c3, h), (r, c4), (c4, k), (r, e)):
         c.parent = p
         p.children.append(c)
     if FLD == 0:
@@ -283,7 +289,7 @@ def h_general(val: Optional[str]) -> str:
 
 # ------------------------------------------------------------------------------------------------- EML exporter
 def _eml_tree(val: Optional[str], root_is_eml: bool):
-    Node.store.clear()
+    fresh()
     r = Node("eml" if root_is_eml else "dataset", id="n0")
     r.add_attribute("packageId", "pkg.1.1")
     t = Node("title", id="n1", content="T")
@@ -308,7 +314,7 @@ def _eml_tree(val: Optional[str], root_is_eml: bool):
 
 
 def _eml_small(val: Optional[str], root_is_eml: bool):
-    Node.store.clear()
+    fresh()
     r = Node("eml" if root_is_eml else "dataset", id="n0")
 
     def kid(parent, name):
